@@ -41,7 +41,8 @@ def error_json(path, message, location):
     if path is not None:
         e['path'] = path
     if location is not None:
-        e['locations'] = [{'line': location[0], 'column': location[1]}]
+        locs = location if (location and isinstance(location[0], list)) else ([location] if location else [])
+        e['locations'] = [{'line': l[0], 'column': l[1]} for l in locs]
     return e
 
 
@@ -207,7 +208,7 @@ def main():
         samples=R.samples[:6],
         obligations=R.obligations, discharged=R.discharged,
         bounds=dict(max_path_entries=maxpath, path_entries='Key(unconstrained string) | Index(unconstrained i32)', message='unconstrained string',
-                    location='absent | first location with unconstrained i32 line / column (further locations are never read by the code)'),
+                    location='absent | list of 0..2 locations with unconstrained i32 line / column'),
         outside_bounds='longer paths; the serde derives on Response / Error / Location / PathFragment (Content, HashMap, serde_json) are sampled natively only '
                        f'({native_n} bodies / errors from the response grammar): accept + round trip + Some/None per member + content preserved',
         engine=ev, cross_check=cross, exhaustive=False,
